@@ -71,7 +71,7 @@ def classify(op, c, m):
     crashed = c.startswith("crash") or c == "timeout" or c in ("<missing>",)
     if crashed:
         return "diff"
-    if op.startswith(("LRT ", "NI ")) and c.startswith("same=0"):
+    if op.startswith(("LRT ", "NI ", "SL ")) and c.startswith("same=0"):
         return "diff"          # a metamorphic relation of the property fails in the real tool, whatever the model says
     if m.startswith("skip:"):
         return "benign"
@@ -163,12 +163,31 @@ class ToolsEngine(DiffEngine):
             if self.fails(binp, d, cand):
                 # delta-debug the argument list of the failing run (keep the op name and its fixed fields)
                 t = cand[1].split(" ")
-                fixed = {"CALC": 3, "DISTRIB": 2, "LRT": 1, "NI": 2, "BADARGS": 2}.get(t[0])
+                fixed = {"CALC": 3, "DISTRIB": 2, "LRT": 1, "NI": 2, "BADARGS": 2, "SL": 2}.get(t[0])
                 if fixed is not None and len(t) > fixed + 1:
                     head, args = t[:fixed], t[fixed:]
                     small = ddmin(args, lambda sub: self.fails(binp, d, [cand[0], " ".join(head + sub)]), max_tests=80)
                     if self.fails(binp, d, [cand[0], " ".join(head + small)]):
                         cand = [cand[0], " ".join(head + small)]
+                # stdin mode: then the input lines, then the locations of each remaining line
+                t = cand[1].split(" ")
+                spos = {"CALC": 2, "SL": 1}.get(t[0])
+                if spos is not None and len(t) > spos and "%0a" in t[spos]:
+                    def with_stdin(lines):
+                        return " ".join(t[:spos] + ["".join(x + "%0a" for x in lines) or "%_"] + t[spos + 1:])
+                    lines = [x for x in t[spos].split("%0a")]
+                    if lines and lines[-1] == "":
+                        lines.pop()
+                    small = ddmin(lines, lambda sub: self.fails(binp, d, [cand[0], with_stdin(sub)]), max_tests=40)
+                    if self.fails(binp, d, [cand[0], with_stdin(small)]):
+                        lines = small
+                        for i in range(len(lines)):
+                            toks = [x for x in lines[i].split("%20") if x]
+                            if len(toks) > 1:
+                                sm = ddmin(toks, lambda sub: self.fails(binp, d, [cand[0], with_stdin(lines[:i] + ["%20".join(sub)] + lines[i + 1:])]), max_tests=20)
+                                if self.fails(binp, d, [cand[0], with_stdin(lines[:i] + ["%20".join(sm)] + lines[i + 1:])]):
+                                    lines[i] = "%20".join(sm)
+                        cand = [cand[0], with_stdin(lines)]
                 return cand
         return ops[loads[-1]:] if loads else ops
 
@@ -245,7 +264,11 @@ ENGINE = ToolsEngine("tools", classify=classify, stateful=False,
                           "non-trivial os_index orders, > 64 PUs; bundled XML files with I/O and Misc objects) as each tool loads them and "
                           "runs the real tools in forked children: hwloc-calc on generated option/location lists (all operators, the "
                           "three set formats incl. infinite sets, nested type:range forms, physical/logical, nodeset modes, -N/-I/-H/"
-                          "--largest/--single/--no-smt, stdin mode, malformed tokens and options), hwloc-distrib (n in 0..2*PUs+2, "
+                          "--largest/--single/--no-smt, malformed tokens and options; stdin mode = no location on the command line, 1..5 "
+                          "input lines of 1..3 (sometimes 6..13) locations incl. empty / blank-only lines, invalid locations, a missing final newline, "
+                          "with every output mode (-I/-N on cpu and memory levels, -H, --largest, plain sets in four formats) and the "
+                          "modifiers -n/--ni/--no/--nof, --po/--lo/--pi/--li/-p/-l, --oo, --sep, --single, --no-smt, --cif, --default-nodes, -q, "
+                          "both against the model (CALC) and against one command-line run per input line (SL)), hwloc-distrib (n in 0..2*PUs+2, "
                           "--from/--to/--at/--reverse/--single/formats, malformed), lstopo --of xml|synthetic vs the library export "
                           "byte-for-byte + reload, hwloc-diff|hwloc-patch vs the second topology, malformed command lines of all five "
                           "tools; a case = one tool run (or one metamorphic group of runs); stdout and exit-status class are compared "
